@@ -1,0 +1,140 @@
+//go:build verif
+
+// Package vt holds verification hooks. With the "verif" build tag, Emit writes
+// one JSON object per event to a sink installed by a test harness, Yield
+// perturbs the goroutine schedule by seed and Gate lets a harness impose an
+// interleaving.
+package vt
+
+import (
+	"encoding/json"
+	"math/rand"
+	"reflect"
+	"runtime"
+	"sync"
+	"sync/atomic"
+	"time"
+)
+
+// On reports whether verification hooks are compiled in.
+const On = true
+
+var (
+	mu      sync.Mutex
+	seq     int64
+	sink    func([]byte)
+	ids     = map[uintptr]int{}
+	nextID  int
+	yieldOn atomic.Bool
+	rng     *rand.Rand
+	gateFn  atomic.Value // func(string)
+)
+
+// SetSink installs the function receiving each encoded event line (nil = off).
+func SetSink(f func([]byte)) {
+	mu.Lock()
+	sink = f
+	mu.Unlock()
+}
+
+// Reset clears the sequence counter and the object-id table.
+func Reset() {
+	mu.Lock()
+	seq = 0
+	ids = map[uintptr]int{}
+	nextID = 0
+	mu.Unlock()
+}
+
+// SetYield turns seeded schedule perturbation on (seed != 0) or off.
+func SetYield(seed int64) {
+	mu.Lock()
+	if seed == 0 {
+		yieldOn.Store(false)
+		rng = nil
+	} else {
+		rng = rand.New(rand.NewSource(seed))
+		yieldOn.Store(true)
+	}
+	mu.Unlock()
+}
+
+// SetGate installs a function called (and allowed to block) at every Gate point.
+func SetGate(f func(point string)) {
+	if f == nil {
+		f = func(string) {}
+	}
+	gateFn.Store(f)
+}
+
+// Emit records a trace event; kv is an alternating list of keys and values.
+// The sequence number is assigned under a global lock, so callers that emit
+// while holding the lock protecting the logged state get a valid linearization.
+func Emit(ev string, kv ...any) {
+	mu.Lock()
+	defer mu.Unlock()
+	if sink == nil {
+		return
+	}
+	seq++
+	m := make(map[string]any, len(kv)/2+2)
+	m["seq"] = seq
+	m["ev"] = ev
+	for i := 0; i+1 < len(kv); i += 2 {
+		if k, ok := kv[i].(string); ok {
+			m[k] = kv[i+1]
+		}
+	}
+	b, err := json.Marshal(m)
+	if err != nil {
+		return
+	}
+	sink(b)
+}
+
+// Yield perturbs the schedule at a named point when enabled by SetYield.
+func Yield(point string) {
+	if !yieldOn.Load() {
+		return
+	}
+	mu.Lock()
+	r := 0
+	if rng != nil {
+		r = rng.Intn(8)
+	}
+	mu.Unlock()
+	switch {
+	case r < 4:
+	case r < 7:
+		runtime.Gosched()
+	default:
+		time.Sleep(time.Duration(50+r*20) * time.Microsecond)
+	}
+}
+
+// Gate blocks at a named point until the installed gate function returns.
+func Gate(point string) {
+	if f, ok := gateFn.Load().(func(string)); ok && f != nil {
+		f(point)
+	}
+}
+
+// ID returns a small stable id for a pointer-like object.
+func ID(obj any) int {
+	v := reflect.ValueOf(obj)
+	var p uintptr
+	switch v.Kind() {
+	case reflect.Ptr, reflect.Chan, reflect.Map, reflect.UnsafePointer, reflect.Func, reflect.Slice:
+		p = v.Pointer()
+	default:
+		return 0
+	}
+	mu.Lock()
+	defer mu.Unlock()
+	if id, ok := ids[p]; ok {
+		return id
+	}
+	nextID++
+	ids[p] = nextID
+	return nextID
+}
